@@ -135,10 +135,16 @@ class HTTPFile(io.IOBase):
             stop = min((index+1)*self._chunk_size, self.length)
             self.cache[index] = self.download_range(start, stop)
         if len(self.cache) > self._keep_chunks:
-            for kk in self.cache.keys():
+            # Never remove the requested chunk. Keep the first chunk
+            # as long as there is another chunk that can be removed.
+            candidates = [kk for kk in self.cache.keys() if kk != index]
+            for kk in candidates:
                 if kk != 0:  # always keep the first chunk
                     self.cache.pop(kk)
                     break
+            else:
+                if candidates:
+                    self.cache.pop(candidates[0])
         return self.cache[index]
 
     def read(self, size=-1, /):
